@@ -16,7 +16,7 @@ DISTRACTOR_DIRS = ["src", "lib", "pkg", "x/y"]
 GOOD_SHAPES = ("one2", "one15", "one16", "one30", "one31", "one60", "one61", "one75", "multi", "multi2",
                "strings", "nested", "mlhdr", "nonl", "enc_utf8", "multi_ws", "comments", "empty", "ws", "uni", "nocl")
 LONG_SHAPES = ("one31", "one60", "one61", "one75", "multi", "multi2", "nested", "enc_utf8", "enc_latin1", "enc_crlf",
-               "bare31", "bare61", "uni", "nocl")
+               "bare31", "bare61", "uni", "nocl", "twins")
 BAD_SHAPES = ("unbal", "half", "closers", "enc_latin1", "enc_utf16", "enc_bom", "enc_crlf")
 
 
